@@ -58,11 +58,12 @@ OFileBegin == /\ IsEvent("filebegin") /\ pc = "idle" /\ code = 9
                    /\ begun' = begun \cup {f}
               /\ UNCHANGED <<passes, decided, tcoll, failedf, written, code>> /\ Stay
 
-\* in these worlds the only stage that may fail is schema validation, and only for data that violates its schema
+\* in these worlds the only failures are schema validation of data that violates its schema, and fetching an
+\* unretrievable schema for a file that requires it
 OStageFail == /\ IsEvent("stagefail") /\ code = 9
               /\ LET f == Pair(Ev.fk, Ev.fj) IN
                    /\ f \in begun /\ f \notin failedf /\ f \notin written
-                   /\ Ev.stage = "schema"
+                   /\ Ev.stage = (IF W.g.mode = "unfetchable" THEN "template" ELSE "schema")
                    /\ ~ValidAgainst(SchemaOf(src[f[1]]), src[f[1]])
                    /\ failedf' = failedf \cup {f}
               /\ UNCHANGED <<passes, decided, tcoll, begun, written, code>> /\ Stay
